@@ -506,6 +506,139 @@ func checkC02(w *World) {
 
 	// R02.6
 	w.perContextNode(P, f, r)
+	// R02.9
+	w.filterPredicateOrder(P, f, r)
+}
+
+// filterPredicateOrder (R02.9): a predicate applied to a filter expression (a parenthesised or primary expression,
+// not a step) numbers the node-set in document order. The node-set of the filter expression may be in reverse
+// document order (its last step was a reverse axis) or in any order (a variable bound by the caller), so between
+// the evaluation of the filter expression and the evaluation of the predicate the handler has to put it into
+// document order.
+func (w *World) filterPredicateOrder(P string, f *Facts, r *Roles) {
+	docRule(P, "R02.9", "P+D G<->H", "for every production `F Predicate` whose first nonterminal derives a parenthesised expression through unit productions (a filter expression, not a step), the handler stores, after evaluating child 0 and before evaluating child 1, a context result that passed through the forward normaliser (conditional only on the result being a node-set and on error tests): `(E)[n]` counts in document order even when E ends in a reverse axis.")
+	isPredicateNT := func(nt string) bool {
+		for _, a := range f.Alts[nt] {
+			if len(a.Syms) > 0 && !a.Syms[0].IsNT && a.Syms[0].Name == "[" {
+				return true
+			}
+		}
+		return false
+	}
+	derivesParen := func(start string) bool {
+		seen := map[string]bool{}
+		todo := []string{start}
+		for len(todo) > 0 {
+			nt := todo[0]
+			todo = todo[1:]
+			if seen[nt] {
+				continue
+			}
+			seen[nt] = true
+			for _, a := range f.Alts[nt] {
+				if len(a.Syms) == 3 && !a.Syms[0].IsNT && a.Syms[0].Name == "(" && a.Syms[1].IsNT && !a.Syms[2].IsNT && a.Syms[2].Name == ")" {
+					return true
+				}
+				if len(a.Syms) == 1 && a.Syms[0].IsNT {
+					todo = append(todo, a.Syms[0].Name)
+				}
+			}
+		}
+		return false
+	}
+	var nts []string
+	for nt := range f.Alts {
+		nts = append(nts, nt)
+	}
+	sort.Strings(nts)
+	n := 0
+	for _, nt := range nts {
+		for _, a := range f.Alts[nt] {
+			if len(a.Syms) != 2 || !a.Syms[0].IsNT || !a.Syms[1].IsNT || !isPredicateNT(a.Syms[1].Name) || !derivesParen(a.Syms[0].Name) {
+				continue
+			}
+			n++
+			h := f.Handlers[nt]
+			if h == nil {
+				w.check(P, "R02.9", "filter production "+nt, 0, false, "no handler: the dispatcher evaluates only the filter expression and drops the predicate")
+				continue
+			}
+			ok, why := false, "no function of the handler evaluates child 0 and child 1 in its own context with a forward-normalising store between them"
+			for _, g := range w.handlerClosure(h.Fn) {
+				var c0, c1 *ssa.Call
+				for _, ev := range w.childEvals(g) {
+					if !ev.OwnCtx {
+						continue
+					}
+					if ev.ChildIdx == 0 {
+						c0 = ev.Call
+					}
+					if ev.ChildIdx == 1 {
+						c1 = ev.Call
+					}
+				}
+				if c0 == nil || c1 == nil {
+					continue
+				}
+				base := map[atom]bool{}
+				for _, at := range guardAtoms(c0.Block()) {
+					base[at] = true
+				}
+				for _, st := range resultStores(g, r) {
+					sb := st.Block()
+					if !(c0.Block() == sb && instrIndex(c0) < instrIndex(st) || c0.Block() != sb && c0.Block().Dominates(sb)) {
+						continue
+					}
+					if !(sb == c1.Block() && instrIndex(st) < instrIndex(c1) || sb != c1.Block() && reaches(sb, c1.Block())) {
+						continue
+					}
+					if okN, whyN := w.valueNormalised(st.Val, 1, 0); !okN {
+						why = "the result stored between the two evaluations is not forward-normalised: " + whyN
+						continue
+					}
+					// extra guards of the store: only error tests and the node-set test
+					extra := ""
+					for _, at := range guardAtoms(sb) {
+						if base[at] {
+							continue
+						}
+						if isErrTest(at.V) {
+							continue
+						}
+						if ex, isEx := at.V.(*ssa.Extract); isEx && ex.Index == 1 && at.Pol {
+							if ta, isTA := ex.Tuple.(*ssa.TypeAssert); isTA && types.Identical(ta.AssertedType, r.NodeSet) {
+								continue
+							}
+						}
+						extra = "the normalising store is conditional on something other than the result being a node-set"
+					}
+					if extra != "" {
+						why = extra
+						continue
+					}
+					ok, why = true, "child 0, forward normaliser, child 1 in "+g.Name()
+				}
+			}
+			w.check(P, "R02.9", "filter production "+nt+": document order before the predicate", h.Fn.Pos(), ok, why)
+		}
+	}
+	if n == 0 {
+		w.undecided(P, "R02.9", "filter productions", 0, "the grammar has no production `FilterExpr Predicate`")
+	}
+	w.floor(P, "R02.9", 1)
+}
+
+// isErrTest: v compares an error value with nil.
+func isErrTest(v ssa.Value) bool {
+	bo, ok := v.(*ssa.BinOp)
+	if !ok || (bo.Op != token.EQL && bo.Op != token.NEQ) {
+		return false
+	}
+	isErr := func(t types.Type) bool {
+		n, ok := t.(*types.Named)
+		return ok && n.Obj().Pkg() == nil && n.Obj().Name() == "error"
+	}
+	return (isErr(bo.X.Type()) && isNilConst(bo.Y)) || (isErr(bo.Y.Type()) && isNilConst(bo.X))
 }
 
 // accessorPlusConst: fn returns Number(ctx.<accessor>() + k).
